@@ -66,6 +66,14 @@ CHECKS = {
          "freshly tuned peer at both ends of every random window.",
          "Well-formed integer commands only; depth bound 2 (quick) / 3 (thorough) beyond the seeds; trxcon leg separate.",
          "DESIGN.md 2/C05", "world+explore"),
+ "C10": ("exploration",
+         "bounded-exhaustive product of sender/recipient simulation settings x header versions x window ends x burst sets on the real Application, reference-decoder oracle",
+         "Complete product of the enumerated SETPOWER/SETTA/FAKE_TOA/FAKE_RSSI/FAKE_CI settings, version pairs and both ends of every random "
+         "window with representative bursts and attenuations, plus every training sequence of every burst type, the generator's own outputs and a "
+         "walking bit through every position at default settings; each datagram on the recipient's DATA port is decoded by the reference layout and "
+         "compared field by field with the reference model; the generator's planted sequences are compared with the specification constants.",
+         "Windows explored at both ends only; TSC judged only for bursts with exactly one recognisable training sequence.",
+         "DESIGN.md 2/C10", "world+enum"),
 }
 
 PENDING = {}
